@@ -731,7 +731,7 @@ func queueStress(n int, seed int64) {
 		detailOnce.Do(func() {
 			where := "?"
 			for _, l := range leftover() {
-				if strings.Contains(l, "QueuedChannel") {
+				if strings.Contains(l, "QueuedChannel") && strings.Contains(l, ").pop") {
 					where = strings.SplitN(l, "\n", 2)[0]
 					fail("leak", "the consumer goroutine of a QueuedChannel did not end within 10 s after Close (racing with Enqueue): "+where,
 						fmt.Sprintf("%d of %d queues\n%s", k, atomic.LoadInt64(&total), l))
